@@ -785,7 +785,7 @@ fn gen_c19(rng: &mut Rng, thorough: bool) -> Case {
             // the outer executor is polling this model).
             if rng.pct(8) {
                 let pos = rng.usize(ops.len() + 1);
-                ops.insert(pos, Op::Nested { models: rng.range(1, 5) as u8 });
+                ops.insert(pos, Op::Nested { models: rng.range(1, 9) as u8 });
             }
         }
     }
